@@ -40,9 +40,9 @@ Print Assumptions C08_templates_do_not_count.
    transport, start counter, sets built by any operations. No hypothesis is needed: the oracle
    itself stops at the first failed attempt, as the statement does. The oracle is a function of
    the structured observation (list sobs * fobs); show_hist / parse_hobs only print / read it. *)
-Theorem C08_oracle_on_model : forall c, C08_holds_on c (hist_model cur c) = true.
+Theorem C08_oracle_on_model_h : forall c, C08_holds_on_h c (hist_model cur c) = true.
 Proof. exact c08_oracle_on_model. Qed.
-Print Assumptions C08_oracle_on_model.
+Print Assumptions C08_oracle_on_model_h.
 
 (* non-vacuity: a session that crosses the 2^32 wrap, all calls succeed, numbers as predicted *)
 Definition ex_u8 : ie := mkIE "x" 4 Unsigned8 0 1.
